@@ -79,6 +79,13 @@ def v3_stream(enc, cells, rng, density, kinds):
                 skip = rng.randint(1, 7)
                 out.append(REV[0xF3])
                 out.append(REV[skip])
+                if len(kinds) > 1 and rng.chance(0.25):
+                    # another opcode between SKIPBITS and the byte it applies to: the skip stays pending
+                    k2 = rng.choice([x for x in kinds if x != 'skipbits'])
+                    count[k2] += 1
+                    out.append(REV[{'nop': 0xF0, 'setindex': 0xF1, 'setbitrate': 0xF2}[k2]])
+                    if k2 == 'setbitrate':
+                        out.append(REV[rng.choice([72, 250, rng.below(240)]) & 0xFF])
                 # a byte whose first `skip` bit slots are to be ignored, the rest are the next cells
                 b = 0
                 take = 8 - skip
@@ -193,11 +200,11 @@ def gen_fluxcase(rng, enc=None, container=None, sides=None, small=False):
     return fc
 
 
-def gen_hostile_flux(rng, sides=1, none_weight=1):
+def gen_hostile_flux(rng, sides=1, none_weight=1, container=None):
     """A small flux image description with legal-but-unusual recordings (deleted-data and other data marks)
     and/or cell damage, for the fail-cleanly and option-independence checks.
     Returns (fluxcase, damage dict with 'side:track' keys)."""
-    fc = gen_fluxcase(rng, small=True, sides=sides)
+    fc = gen_fluxcase(rng, small=True, sides=sides, container=container)
     marks = {}
     damage = {}
     what = rng.weighted([(3, 'marks'), (3, 'damage'), (2, 'both'), (none_weight, 'none')])
